@@ -144,3 +144,17 @@ _c01_queries = queries
 def queries():
     import C03
     return _c01_queries() + [q for q in C03.queries() if q.name.startswith("client-make_pms_rsa") and q.tier == "quick"]
+
+
+# ---- cross-included by the main session: both sides derive the same Finished only if each side's transcript hash
+# receives exactly the handshake bytes that crossed the wire (anchor src/ssl/ssl_hs_server.c / ssl_hs_client.c byte I/O
+# natives); decided by the C07 query family t0-hsio-* (no progress => no hashing; progress => hashed once, in order).
+_c01_queries2 = queries
+def queries():
+    qs = _c01_queries2()
+    try:
+        import C07_t0_part
+        qs = qs + C07_t0_part.hsio_queries()
+    except Exception:
+        pass
+    return qs
